@@ -90,6 +90,17 @@ func TestC33(t *testing.T) {
 	env := vkit.Load("C33")
 	rec := vkit.NewRec(env)
 	defer rec.Finish()
+	if env.Replay != "" {
+		var probe reallocClusterCase
+		if err := vkit.ReadReplay(env.Replay, &probe); err == nil && probe.Cores > 0 && probe.GrowBy > 0 {
+			c33Cluster(t, env, rec, &probe)
+			return
+		}
+	} else if env.NBatch > 1 && env.Batch == env.NBatch-1 {
+		// last batch: the property at the cluster API, with another re-allocation of the workload in the queue
+		c33Cluster(t, env, rec, nil)
+		return
+	}
 	pe := newPlugEnv(t)
 	jr := vkit.OpenJournal(env)
 	ctx := context.Background()
